@@ -10,6 +10,7 @@ endpoint models joined by FIFO wires, connection end and faults included
 -/
 import Penguin.Model.Link
 import Penguin.Model.Mux
+import Penguin.Model.MuxVec
 import Penguin.Model.Frame
 import Penguin.Lemmas.Link
 import Penguin.Lemmas.MuxStep
@@ -477,5 +478,61 @@ example : let p := PairAll.run (PairAll.init qcfg qcfg [7, 8] [9, 10]) qStale
 example : (run (init 2 2) [.write [1, 2, 3], .deliver, .read 2, .write [4], .deliver, .read 9, .read 9]).delivered
     = [1, 2, 3, 4] := by decide
 example : (run (init 1 1) [.write [7], .shutdown, .deliver, .deliver, .read 4, .read 4]).eofSeen = true := by decide
+
+/-! ### The vectored entry point (`poll_write_vectored`, modelled on its own in `Model/MuxVec.lean`) -/
+
+theorem totalLen_eq_flatten_length (ds : List Bytes) : Mux.totalLen ds = ds.flatten.length := by
+  unfold Mux.totalLen
+  induction ds with
+  | nil => rfl
+  | cons d ds ih => simp only [List.map_cons, List.sum_cons, List.flatten_cons, List.length_append, ih]
+
+/-- `poll_write_vectored` with the slices `ds` IS `poll_write` with their concatenation: same result, same
+    next state (credit, parked writer, queued `Push` frame with exactly the concatenated bytes), for every
+    endpoint state, handle and slice list — no slices, empty slices and a total of 0 included. The byte-level
+    theorems of this file, stated for `write`, therefore hold for vectored writes as they are. -/
+theorem vectored_write_is_write_of_concatenation (e : Mux.EP) (h : Nat) (ds : List Bytes) :
+    Mux.appWriteV e h ds = Mux.appWrite e h ds.flatten := by
+  unfold Mux.appWriteV Mux.appWrite
+  rw [totalLen_eq_flatten_length]
+  generalize ds.flatten = d
+  cases hh : e.handleObj h with
+  | none => rfl
+  | some p =>
+    obtain ⟨i, o⟩ := p
+    cases d with
+    | nil =>
+      simp only [List.length_nil, if_true, List.isEmpty_nil]
+    | cons b d =>
+      simp only [List.length_cons, Nat.add_one_ne_zero, if_false, List.isEmpty_cons, Bool.false_eq_true]
+
+/-- A vectored write never sends more than one frame and never takes more than one unit of credit. -/
+theorem vectored_write_one_frame_one_credit (e : Mux.EP) (h : Nat) (ds : List Bytes) (n : Nat)
+    (hw : (Mux.appWriteV e h ds).2 = .wrote n) (hn : 0 < n) :
+    ∃ i o, e.handleObj h = some (i, o) ∧ 0 < o.credit ∧ n = ds.flatten.length ∧
+      (Mux.appWriteV e h ds).1 =
+        (e.modObj i (fun o => { o with credit := o.credit - 1, parked := false })).enqFrame (.push o.fid ds.flatten) := by
+  rw [vectored_write_is_write_of_concatenation] at hw ⊢
+  unfold Mux.appWrite at hw ⊢
+  cases hh : e.handleObj h with
+  | none => simp [hh] at hw
+  | some p =>
+    obtain ⟨i, o⟩ := p
+    simp only [hh] at hw ⊢
+    refine ⟨i, o, rfl, ?_⟩
+    by_cases hf : o.finishSent = true
+    · simp [hf] at hw
+    · by_cases hemp : ds.flatten.isEmpty = true
+      · simp [hf, hemp] at hw; omega
+      · by_cases hc : o.credit = 0
+        · simp [hf, hemp, hc] at hw
+        · by_cases ho : e.outClosed = true
+          · simp [hf, hemp, hc, ho] at hw
+          · simp [hf, hemp, hc, ho] at hw ⊢
+            omega
+
+/-- Non-vacuity: on the endpoint of `hTwo` (two established streams, the peer advertised a window of 4) a
+    vectored write with an empty slice in the middle is accepted with its 3 bytes and queues one `Push`. -/
+example : (Mux.appWriteV (Mux.runOps { opts := hcfg } hTwo) 0 [[1, 2], [], [3]]).2 = .wrote 3 := by decide
 
 end Penguin.C02
